@@ -79,7 +79,7 @@ theorem strOf_canonOpt_false_auth (o : Option Str) :
 
 /-- the same for a user name / password: in quoted mode `safely_unquote_auth_item` counts as its
 partial (`canonOpt_true_auth`), and the partial undoes the re-quoting of the NFKC look-alikes
-(`safelyUnquote_unquoteAuthItem`) — FX-C01-NFKCUSERINFO -/
+(`safelyUnquote_unquoteAuthItem`) — FX-C01-194b1c7 -/
 theorem keyQuoted_auth (o : Option Str) (c : Prop) [Decidable c]
     (hc : ¬ c → strOf (canonOpt false unquoteAuthItem o) = []) :
     strOf (canonOpt true unquoteAuthItem
